@@ -26,7 +26,10 @@ def run(chk, binary):
     cases = []
     n = 6 if quick else 40
     for i in range(n):
-        cases.append({"idx": i, "procs": [1, 2, 4, 16][i % 4], "indexes": 1 + i % 2, "ms": 2500 if quick else 6000,
+        pqs = i % 3 == 1
+        # runs with the persistent-query machinery on use two indexes and last longer: agile trees of several indexes are
+        # built from one pool of builders, and persisted match results are back-filled by a background loop
+        cases.append({"idx": i, "procs": [1, 2, 4, 16][i % 4], "indexes": 2 if pqs else 1 + i % 2, "ms": (4000 if pqs else 2500) if quick else 6000,
                       "seed": chk.seed * 1000 + i, "queriers": 2 + i % 3, "new_cols": i % 3 == 2, "pqs": i % 3 == 1})
 
     def f(c):
